@@ -38,7 +38,9 @@ namespace pika::threads::detail {
 
         // make sure that the thread has not been suspended and set active again
         // in the meantime
+        PIKA_VERIF_PRE("sas.load", get_thread_id_data(thrd));
         thread_state current_state = get_thread_id_data(thrd)->get_state();
+        PIKA_VERIF_POST("sas.load", get_thread_id_data(thrd), (static_cast<std::uint64_t>(static_cast<std::uint8_t>(current_state.state())) << 56) | (static_cast<std::uint64_t>(static_cast<std::uint8_t>(current_state.state_ex())) << 48) | static_cast<std::uint64_t>(current_state.tag()), (static_cast<std::uint64_t>(static_cast<std::uint8_t>(previous_state.state())) << 56) | (static_cast<std::uint64_t>(static_cast<std::uint8_t>(previous_state.state_ex())) << 48) | static_cast<std::uint64_t>(previous_state.tag()));
 
         if (current_state.state() == previous_state.state() && current_state != previous_state)
         {
@@ -88,7 +90,9 @@ namespace pika::threads::detail {
         std::size_t k = 0;
         do {
             // action depends on the current state
+            PIKA_VERIF_PRE("sts.load", get_thread_id_data(thrd));
             previous_state = get_thread_id_data(thrd)->get_state();
+            PIKA_VERIF_POST("sts.load", get_thread_id_data(thrd), (static_cast<std::uint64_t>(static_cast<std::uint8_t>(previous_state.state())) << 56) | (static_cast<std::uint64_t>(static_cast<std::uint8_t>(previous_state.state_ex())) << 48) | static_cast<std::uint64_t>(previous_state.tag()), 0);
             thread_schedule_state previous_state_val = previous_state.state();
 
             // nothing to do here if the state doesn't change
